@@ -7,16 +7,13 @@ cross-probes ("otherwise we fork a second UdpEndpoint for the same 4-tuple"), th
 dial key with its two `foundUeKey` overrides, the local fast reuse, `GetOrCreate`, the write, and the
 `Remove` + retry loop (`MaxRetry`).  This model covers the path taken with sniffing switched off for
 the packet (`skipSniffing`, or an endpoint already exists), an empty sniffed domain, a non-DNS
-destination port, and a dialer group whose health check admits the endpoint (fixed policy in the
-harness).  The pool is reduced to what that logic needs: table, dead / closed flags, dial target.
+destination port, and a dialer group whose health check admits the endpoint (a single healthy dialer
+in the harness, fixed or Random policy).  The pool is reduced to what that logic needs: table, dead / closed flags, dial target.
 
 Core Lean only.
 -/
 namespace DaeVerif.C13.Route
 open Keys
-
-/-- `MaxRetry` -/
-def maxRetry : Nat := 2
 
 structure REp where
   key : EKey
@@ -31,6 +28,8 @@ structure St where
   neps : Nat
   eps : Nat → REp
   dials : Nat
+  /-- `MaxRetry`: a tuning constant of the code (the harness reports the value in use) -/
+  maxRetry : Nat := 2
 
 def dummy : REp := ⟨⟨AP.zero, AP.zero, Scope.zero⟩, true, true, AP.zero⟩
 def init : St := { pool := fun _ => none, neps := 0, eps := fun _ => dummy, dials := 0 }
@@ -129,7 +128,7 @@ Returns the state and the endpoint that carried the packet. -/
 def attempts : Nat → St → Pkt → Option Found → Option Nat → Nat → List Bool → St × Option Nat
   | 0, s, _, _, _, _, _ => (s, none)
   | fuel + 1, s, p, found, ue, retry, ws =>
-    if retry > maxRetry then (s, none)
+    if retry > s.maxRetry then (s, none)
     else
       let k := attemptKey s p found ue
       let r : St × Nat × Bool :=
@@ -144,7 +143,7 @@ def attempts : Nat → St → Pkt → Option Found → Option Nat → Nat → Li
 
 /-- `handlePkt` (endpoint part) -/
 def handle (s : St) (p : Pkt) (ws : List Bool) : St × Option Nat :=
-  attempts (maxRetry + 2) s p (lookup s p) ((lookup s p).map (·.e)) 0 ws
+  attempts (s.maxRetry + 2) s p (lookup s p) ((lookup s p).map (·.e)) 0 ws
 
 /-- the transport of endpoint e reports a hard read error (the read loop retires the endpoint) -/
 def readError (s : St) (e : Nat) : St := if (s.eps e).closed then s else retire s e
